@@ -54,41 +54,78 @@ def domain_for(ctx, cls):
     return Domain(lower), cfg
 
 
+DIM_FIELDS = ("max_useful_life", "lead_time")  # fields that are vector lengths
+
+
+def closure(ctx, cls, dom, inst=None):
+    """(state columns, action columns, event columns, successor, ok, why, interpreter)."""
+    I, nxt, _rew = transition_terms(ctx, cls, inst)
+    se = SegEval(I, dom, {})
+    try:
+        st = se.columns(I.attrs["_state_space"])
+        ac = se.columns(I.attrs["_action_space"])
+        evs = se.columns(I.attrs["_random_event_space"])
+    except KeyError as e:
+        raise AnalysisError(f"anchor vanished: {cls.name} space attribute {e}") from e
+    se.spaces = {STATE: st, ACTION: ac, EVENT: evs}
+    for rec in I.scans:  # carry invariants of the issuing scans
+        if rec["kind"] != "recurrence":
+            continue
+        c = rec["carry"]
+        if c[0] != "sym":
+            raise AnalysisError(f"{cls.name}: scan with a structured carry in transition")
+        init = se.all_of(se.ev(rec["init"]))
+        out = rec["carry_out"]
+        inv_ok = dom.leq(ZERO, init.lo) and out[0] == "app" and out[1] == "clip" and out[2][1] == ZERO
+        se.carries[c] = Iv(ZERO, PINF) if inv_ok else Iv(NINF, PINF)
+    succ = se.ev(nxt)
+    if not isinstance(succ, Vec):
+        succ = Vec([(ONE, succ)])
+    ok, why = contains(dom, st, succ)
+    return st, ac, evs, succ, ok, why, I
+
+
 def run(ctx: Context, col) -> None:
+    import itertools
+
     for cls in ctx.problems():
         dom, cfg = domain_for(ctx, cls)
-        I, nxt, _rew = transition_terms(ctx, cls)
         owner, fn = ctx.ct.require(cls, "transition")
-        se = SegEval(I, dom, {})
         try:
-            st = se.columns(I.attrs["_state_space"])
-            ac = se.columns(I.attrs["_action_space"])
-            evs = se.columns(I.attrs["_random_event_space"])
-        except KeyError as e:
-            raise AnalysisError(f"anchor vanished: {cls.name} space attribute {e}") from e
-        col.add("R14.3", f"{cls.name}.__init__", cls.module.relpath, cls.node.lineno, True,
-                f"states {st}; actions {ac}; events {evs}", text="space column ranges")
-        col.saw("spaces", f"{cls.name}: states {st}; actions {ac}; events {evs}")
-        se.spaces = {STATE: st, ACTION: ac, EVENT: evs}
-        # carry invariants of the issuing scans
-        for rec in I.scans:
-            if rec["kind"] != "recurrence":
-                continue
-            c = rec["carry"]
-            if c[0] != "sym":
-                raise AnalysisError(f"{cls.name}: scan with a structured carry in transition")
-            init = se.all_of(se.ev(rec["init"]))
-            out = rec["carry_out"]
-            inv_ok = dom.leq(ZERO, init.lo) and out[0] == "app" and out[1] == "clip" and out[2][1] == ZERO
-            se.carries[c] = Iv(ZERO, PINF) if inv_ok else Iv(NINF, PINF)
-        succ = se.ev(nxt)
-        if not isinstance(succ, Vec):
-            succ = Vec([(ONE, succ)])
-        ok, why = contains(dom, st, succ)
-        col.add("R14.1", f"{cls.name}.transition", owner.module.relpath, fn.lineno, ok,
-                f"successor {succ} is within the state space {st} for every state, action and event" if ok else
-                f"successor {succ} leaves the state space {st}: {why}; the index function would silently clip it onto a different state",
-                text="successor within state space")
+            st, ac, evs, succ, ok, why, I = closure(ctx, cls, dom)
+            col.add("R14.3", f"{cls.name}.__init__", cls.module.relpath, cls.node.lineno, True,
+                    f"states {st}; actions {ac}; events {evs}", text="space column ranges")
+            col.saw("spaces", f"{cls.name}: states {st}; actions {ac}; events {evs}")
+            col.add("R14.1", f"{cls.name}.transition", owner.module.relpath, fn.lineno, ok,
+                    f"successor {succ} is within the state space {st} for every state, action and event" if ok else
+                    f"successor {succ} leaves the state space {st}: {why}; the index function would silently clip it onto a different state",
+                    text="successor within state space")
+        except AnalysisError as e:
+            # a construct outside the symbolic vocabulary (e.g. a periodic layout np.tile(.., m)): decide the
+            # instances with the vector-length fields fixed to 1..3 exactly; a failing instance is a violation
+            fields = [f for f in DIM_FIELDS if f in ctx.ct.all_fields(cfg)]
+            if not fields:
+                raise
+            failures, done = [], []
+            for vals in itertools.product((1, 2, 3), repeat=len(fields)):
+                inst = dict(zip(fields, vals))
+                st, ac, evs, succ, ok, why, I = closure(ctx, cls, dom, inst)
+                done.append(inst)
+                if not ok:
+                    failures.append((inst, st, succ, why))
+            col.notes.append(f"{cls.name}: symbolic closure analysis not applicable ({e}); decided {len(done)} instances of {fields} in 1..3 instead")
+            col.add("R14.3", f"{cls.name}.__init__", cls.module.relpath, cls.node.lineno, True,
+                    f"spaces outside the symbolic vocabulary ({str(e)[:80]}); instantiated {fields} over 1..3", text="space column ranges")
+            if failures:
+                inst, st, succ, why = failures[0]
+                col.add("R14.1", f"{cls.name}.transition", owner.module.relpath, fn.lineno, False,
+                        f"with {inst}: successor {succ} leaves the state space {st}: {why}; the index function would silently clip it onto a different state "
+                        f"({len(failures)} of {len(done)} instances fail)", text="successor within state space")
+            else:
+                col.add("R14.1", f"{cls.name}.transition", owner.module.relpath, fn.lineno, True,
+                        f"successor within the state space for the {len(done)} instances of {fields} in 1..3 (bounded: the symbolic analysis does not apply)",
+                        text="successor within state space")
+            I = problem_interp(ctx, cls)
         _index(ctx, cls, I, col)
     col.floor("R14.1", 4)
     col.floor("R14.2", 4)
